@@ -533,6 +533,14 @@ func cmdRun(args []string) {
 		enumStats["reference_runs"] = nref
 		enumStats["single_fault_variants"] = len(variants)
 		runJobs(variants, 12)
+		// on top: random multi-fault runs (no plan)
+		var random []Job
+		for r := 0; r < tc.runs/2; r++ {
+			random = append(random, Job{ID: id, Seed: seed, Run: 100000 + r})
+			id++
+		}
+		enumStats["random_multi_fault_runs"] = len(random)
+		runJobs(random, 20)
 	}
 	if fatal != "" {
 		die2("harness failure: %s", fatal)
